@@ -182,7 +182,7 @@ Prog(f) ==
            \o IfThen("above",
                  IfElse("syncCb", <<Call("OnCsvPassed"), Ret>>,          \* before the repair: csvPassedCallback(swapId) synchronously; err == nil -> return
                                   <<Spawn("acb", "AsyncCb"), Ret>>))      \* go func() { csvPassedCallback(swapId) ... }()
-           \o <<Acq("W"), Acc("txwatcher.(*BlockchainRpcTxWatcher).AddWaitForCsvTx", V("w.csvList", "w")), Set("csvN", "1"), Rel("W"), Ret>>,
+           \o <<Acq("W"), Acc("txwatcher.(*BlockchainRpcTxWatcher).addCsvTx", V("w.csvList", "w")), Set("csvN", "1"), Rel("W"), Ret>>,
            \* lwk/electrumtxwatcher.go AddWaitForCsvTx -> subscriber.Register
            <<Acq("H"), Acc("electrum.(*liquidBlockHeaderSubscriber).Register", V("el.observers", "w")), Set("csvN", "+1"), Rel("H"), Ret>>)
     [] f = "AsyncCb" -> <<Call("OnCsvPassed"), Ret>>
